@@ -357,18 +357,30 @@ Definition predicted (a b : op) : list field :=
   then sort_fields (dedup_fields [] (racy_fields op (template a) (template b)))
   else [].
 
-(* a send on ch by one operation while another (allowed to overlap) closes ch *)
-Definition predicted_send_on_closed (a b : op) : bool :=
-  concurrent_allowed a b &&
-  existsb (fun c => (sends op (template a) c && closes op (template b) c)
-                    || (sends op (template b) c && closes op (template a) c))
-          [CNotify; CSessClose; CArpClose; CI6Close; CDhcpClose; CDnsClose].
+(* the `closed` flag that guards a channel *)
+Definition flag_of_chan (c : chan) : field :=
+  match c with
+  | CNotify | CSessClose => FSessClosed | CArpClose => FArpClosed | CI6Close => FI6Closed
+  | CDhcpClose => FDhcpClosed | CDnsClose => FDnsClosed
+  end.
+Definition all_chans_l : list chan := [CNotify; CSessClose; CArpClose; CI6Close; CDhcpClose; CDnsClose].
 
-(* two closers of one channel allowed to overlap: close of a closed channel *)
+(* a send on ch by one operation while another (allowed to overlap) closes ch: an unguarded send, or a
+   guarded one (skipped once the flag is set) when the closer does not set that flag, atomically, before closing *)
+Definition send_vs_close (a b : op) (c : chan) : bool :=
+  closes op (template b) c &&
+  (sends op (template a) c
+   || (gsends op (template a) c (flag_of_chan c) && negb (close_after_once op (template b) c (flag_of_chan c)))).
+Definition predicted_send_on_closed (a b : op) : bool :=
+  concurrent_allowed a b && existsb (fun c => send_vs_close a b c || send_vs_close b a c) all_chans_l.
+
+(* two closers of one channel allowed to overlap: close of a closed channel, unless both close only after the
+   atomic test-and-set of the channel's flag (then at most one of them ever closes) *)
 Definition predicted_double_close (a b : op) : bool :=
   concurrent_allowed a b &&
-  existsb (fun c => closes op (template a) c && closes op (template b) c)
-          [CNotify; CSessClose; CArpClose; CI6Close; CDhcpClose; CDnsClose].
+  existsb (fun c => closes op (template a) c && closes op (template b) c
+                    && negb (close_after_once op (template a) c (flag_of_chan c)
+                             && close_after_once op (template b) c (flag_of_chan c))) all_chans_l.
 
 (* an operation that stores nil into a map field while another (allowed to overlap) assigns an entry
    of that map: "assignment to entry in nil map" panics (dns.go:55-58 Close vs dns.go:141, mdns.go:307) *)
